@@ -38,7 +38,7 @@ def op_strategy(draw, k):
         "obtain_vertices", "obtain_leaf_vertices", "get_complete_accessor", "get_complete_accessor", "find_vertices",
         "filter_valid", "connect_valid_graph", "connect_coding_graph", "connect_coding_graph",
         "approximate_capacity", "calculate_intersection_score", "create_random_shuffles", "complete_then_trim",
-        "prune_then_trim", "prune_then_trim",
+        "prune_then_trim", "prune_then_trim", "construct_filter", "construct_filter",
         "calculus", "bit_to_number", "number_to_bit", "dna_to_number", "number_to_dna"]))
     op = {"f": f}
     if f in VERBOSE_OPS:
@@ -54,6 +54,8 @@ def op_strategy(draw, k):
         op.update(indel=draw(st.booleans()), check_len=draw(st.sampled_from([0, 1, 1, 2, 5])))
     elif f == "path_matching":
         op.update(indel=draw(st.booleans()), loc=draw(st.integers(0, 2 * k)))
+    elif f == "construct_filter":
+        op.update(run=draw(st.sampled_from([None, 1, 2])))
     elif f == "prune_then_trim":
         op.update(threshold=draw(st.sampled_from([1, 1, 2])))
     elif f in ("latter_map_to_accessor", "remove_useless"):
@@ -99,6 +101,7 @@ def histories(draw, tier):
             "filter": draw(gens.local_filter_cfgs(k, decidable=True)) if draw(st.sampled_from([True] * 5 + [False]))
             else {"k": k, "run": None, "gc": None, "motifs": None},
             "map_order": draw(st.sampled_from([None, 1, 2, 3])),
+            "motifs": draw(st.lists(st.text(alphabet="ACGT", min_size=1, max_size=3), min_size=1, max_size=3)),
             "strand": strand, "corrupted": corrupted,
             "number": str(draw(st.integers(10, 10 ** 30)))}
     ops = draw(st.lists(op_strategy(k), min_size=4, max_size=14))
